@@ -137,6 +137,7 @@ fn replay(path: &str) -> i32 {
                 ("C05", 4) => vharness::checks_tok::c05_reset_case(&mut rng, &mut st),
                 ("C06", 1) => vharness::checks_hist::c06_case(&mut rng, &mut st),
                 ("C06", 2) => vharness::checks_hist::c06_general_case(&mut rng, &mut st),
+                ("C06", 4) => vharness::checks_hist::c06_huge_modes_case(&mut rng, &mut st),
                 ("C07", 3) => vharness::checks_hist::c07_history_case(&mut rng, &mut st),
                 ("C09", 1) => vharness::checks_hist::c09_case(&mut rng, &mut st),
                 ("C09", 2) => vharness::checks_scale::c09_big_case(&mut rng, &mut st),
